@@ -165,6 +165,90 @@ Proof.
   - now apply vertex_ok_shift.
 Qed.
 
+(* ---- specification of the growth loop, and the loop meets it for EVERY distance oracle (no monotonicity needed) ----
+   A loop started at n = 1 returns layer count k exactly when k + 1 is the FIRST probed shift whose measured distance is not below the
+   clearance (Go: `clearance > dist` is false), every earlier probe 1..k was below it, and fuel sufficed. *)
+Lemma fit_loop_ok c ok d fuel : forall n k,
+  fit_loop fuel c ok d n = Some (Ok k) <->
+  (n - 1 <= k < n - 1 + Z.of_nat fuel) /\ (forall m, n <= m <= k -> ok m = true /\ (d m <? c)%float = true) /\ ok (k + 1) = true /\ (d (k + 1)%Z <? c)%float = false.
+Proof.
+  induction fuel as [|fuel IH]; intros n k.
+  - cbn [fit_loop]. split; [discriminate|]. intros [H _]. cbn in H. lia.
+  - cbn [fit_loop]. destruct (ok n) eqn:On; cbn [negb].
+    + destruct (d n <? c)%float eqn:Dn.
+      * rewrite IH. split.
+        -- intros (R & A & B & C). split; [lia|]. split; [|tauto]. intros m Hm.
+           destruct (Z.eq_dec m n) as [->|Ne]; [auto|]. apply A. lia.
+        -- intros (R & A & B & C). assert (Hk : k <> n - 1).
+           { intros ->. replace (n - 1 + 1) with n in C by lia. congruence. }
+           split; [lia|]. split; [|tauto]. intros m Hm. apply A. lia.
+      * split.
+        -- intros [= <-]. split; [lia|]. split; [intros m Hm; lia|]. replace (n - 1 + 1) with n by lia. auto.
+        -- intros (R & A & B & C). assert (Hk : k = n - 1).
+           { destruct (Z_le_gt_dec n k) as [L|G]; [|lia]. destruct (A n ltac:(lia)) as [_ X]. congruence. }
+           now subst.
+    + split; [discriminate|]. intros (R & A & B & C).
+      destruct (Z_le_gt_dec n k) as [L|G].
+      * destruct (A n ltac:(lia)) as [X _]. congruence.
+      * replace (k + 1) with n in B by lia. congruence.
+Qed.
+(* the boolean form of the specification: the least stop *)
+Definition least_stop (c : float) (d : Z -> float) (k : Z) : bool :=
+  (0 <=? k) && forallb (fun m => (d m <? c)%float) (zrange 1 k) && negb (d (k + 1)%Z <? c)%float.
+Lemma least_stop_spec c d k : least_stop c d k = true <->
+  0 <= k /\ (forall m, 1 <= m <= k -> (d m <? c)%float = true) /\ (d (k + 1)%Z <? c)%float = false.
+Proof.
+  unfold least_stop. rewrite !andb_true_iff, Z.leb_le, forallb_forall, negb_true_iff. split.
+  - intros [[A B] C]. split; [exact A|]. split; [|exact C]. intros m Hm. apply B. now apply in_zrange.
+  - intros (A & B & C). split; [split; [exact A|]|exact C]. intros m Hm. apply B. now apply in_zrange.
+Qed.
+Lemma least_stop_unique c d k k' : least_stop c d k = true -> least_stop c d k' = true -> k = k'.
+Proof.
+  rewrite !least_stop_spec. intros (A & B & C) (A' & B' & C').
+  destruct (Z.lt_trichotomy k k') as [L|[E|G]]; [|exact E|].
+  - rewrite (B' (k + 1)) in C by lia. discriminate.
+  - rewrite (B (k' + 1)) in C' by lia. discriminate.
+Qed.
+(* minimality + termination under fuel, for every distance oracle *)
+Theorem fit_loop_meets_spec c ok d fuel k : (forall m, ok m = true) ->
+  (fit_loop fuel c ok d 1 = Some (Ok k) <-> k < Z.of_nat fuel /\ least_stop c d k = true).
+Proof.
+  intros Hok. rewrite fit_loop_ok, least_stop_spec. split.
+  - intros (R & A & _ & C). split; [lia|]. split; [lia|]. split; [|exact C]. intros m Hm. now apply A.
+  - intros (R & A & B & C). split; [lia|]. split; [|split; [apply Hok|exact C]]. intros m Hm. split; [apply Hok|now apply B].
+Qed.
+Corollary fit_loop_terminates c ok d fuel k : (forall m, ok m = true) -> k < Z.of_nat fuel -> least_stop c d k = true ->
+  fit_loop fuel c ok d 1 = Some (Ok k).
+Proof. intros Hok Hf Hs. apply fit_loop_meets_spec; auto. Qed.
+(* the whole function on a valid ID: first the horizontal loop (x shifts), then the second loop (y shifts, see DC14); each count is the
+   least stop of its own axis *)
+Theorem fit_model_meets_spec fuel dx dy i c H V : valid i -> (c <? 0)%float = false ->
+  (fit_model fuel dx dy (print_eid i) c = Some (Ok (H, V)) <->
+   H < Z.of_nat fuel /\ V < Z.of_nat fuel /\ least_stop c (dx (print_eid i)) H = true /\ least_stop c (dy (print_eid i)) V = true).
+Proof.
+  intros Hv Hc. unfold fit_model. rewrite Hc.
+  assert (Vo : vertex_ok (print_eid i) = true).
+  { apply vertex_ok_print; [now apply valid_okid|]. destruct Hv as (_ & Hvv & _). exact Hvv. }
+  assert (A : Nat.eqb (List.length (split (print_eid i))) 5 = true).
+  { unfold vertex_ok, parse_eid in Vo. destruct (split (print_eid i)) as [|a [|b [|c0 [|d [|e [|f r]]]]]]; try discriminate. reflexivity. }
+  rewrite A. cbn [negb].
+  assert (Ox : forall m, vertex_ok (print_eid i) && vertex_ok (shift_api (print_eid i) m 0 0) = true)
+    by (intros m; now rewrite Vo, vertex_ok_shift).
+  assert (Oy : forall m, vertex_ok (print_eid i) && vertex_ok (shift_api (print_eid i) 0 m 0) = true)
+    by (intros m; now rewrite Vo, vertex_ok_shift).
+  pose proof (fun k => fit_loop_meets_spec c _ (dx (print_eid i)) fuel k Ox) as Sx.
+  pose proof (fun k => fit_loop_meets_spec c _ (dy (print_eid i)) fuel k Oy) as Sy.
+  destruct (fit_loop fuel c _ (dx (print_eid i)) 1) as [[h|]|] eqn:Ex.
+  - destruct (fit_loop fuel c _ (dy (print_eid i)) 1) as [[v|]|] eqn:Ey.
+    + split.
+      * intros [= <- <-]. destruct (proj1 (Sx h) eq_refl), (proj1 (Sy v) eq_refl). tauto.
+      * intros (A1 & A2 & A3 & A4). pose proof (proj2 (Sx H) (conj A1 A3)) as X. pose proof (proj2 (Sy V) (conj A2 A4)) as Y. congruence.
+    + split; [discriminate|]. intros (A1 & A2 & A3 & A4). pose proof (proj2 (Sy V) (conj A2 A4)). discriminate.
+    + split; [discriminate|]. intros (A1 & A2 & A3 & A4). pose proof (proj2 (Sy V) (conj A2 A4)). discriminate.
+  - split; [discriminate|]. intros (A1 & A2 & A3 & A4). pose proof (proj2 (Sx H) (conj A1 A3)). discriminate.
+  - split; [discriminate|]. intros (A1 & A2 & A3 & A4). pose proof (proj2 (Sx H) (conj A1 A3)). discriminate.
+Qed.
+
 (* the part of the answer that is fixed by the structure alone (what the dispatch entry compares and what the corridor model uses):
    Some Err / Some (Ok (0,0)) / None = depends on the geometry *)
 Definition fit_struct (id : string) (c : float) : option (result (Z * Z)) :=
